@@ -427,7 +427,8 @@ def history_rows(ctx):
 
 def run(ctx: C.Ctx):
     rng = ctx.rng
-    offenders, n_oblig, _ = guards_static.static_part(ctx)
+    g_off, n_oblig, _ = guards_static.static_part(ctx)
+    offenders = ["guard_" + o for o in g_off] + guards_static.effects_part(ctx)
     n_before = len(ctx.violations)
     history_rows(ctx)
     for rep in range(ctx.scale(1, 6)):
@@ -438,13 +439,13 @@ def run(ctx: C.Ctx):
     if offenders:
         known = {k.get("signature") for k in C.load_known_findings() if k.get("property") == "C19" and k.get("status") == "known"}
         if any(v.kind == "concrete" and (v.data or {}).get("signature") not in known for v in ctx.violations[n_before:]):
-            ctx.notes.append("generated guard theorems that no longer check: " + ", ".join("guard_" + o for o in offenders))
+            ctx.notes.append("generated theorems that no longer check: " + ", ".join(offenders))
         else:
             ctx.violation("no-failing-input-found",
-                          "generated guard theorem(s) no longer check: " + ", ".join("guard_" + o for o in offenders)
+                          "generated theorem(s) no longer check: " + ", ".join(offenders)
                           + " – the table run on the real code found no offending call",
                           {"signature": "guard-obligation:" + offenders[0], "offenders": offenders},
-                          broken="theorem(s) " + ", ".join("PsVerif.Gen.guard_" + o for o in offenders) + " (PsVerif/Generated/Guards.lean)")
+                          broken="theorem(s) " + ", ".join("PsVerif.Gen." + o for o in offenders) + " (PsVerif/Generated/Guards.lean, Effects.lean)")
 
 
 def replay(ctx: C.Ctx, payload):
